@@ -450,6 +450,15 @@ class FracMonitor:
                 rig.violate("totals-mismatch",
                             f"rows+live per ensemble {[float(t) for t in tot]}"
                             f" != idle step counts {want.tolist()}")
+        if cfg["runner"]["workers"] == 1:
+            # one worker: nothing is busy when weights are recorded, so the
+            # law reads "rows + live == step counter", whoever counts steps
+            cstep = cfg["current"]["cstep"]
+            rig.reach("totals_vs_cstep_one_worker")
+            if not (np.max(np.abs(tot - cstep)) <= 1e-9 * max(1, cstep)):
+                rig.violate("totals-differ-from-step-counter",
+                            f"one worker: rows+live per ensemble "
+                            f"{[float(t) for t in tot]} != cstep {cstep}")
         return [float(t) for t in tot]
 
 
